@@ -140,6 +140,12 @@ class C20(core.Check):
             if name == "loaders":
                 strings = r.sample(STRINGS, 5)
                 lead = r.choice(["", "", "\n\n", "   ", "# header\n", "\r\n \t"])
+                if r.random() < 0.12:
+                    # a file well over 64 KiB, dense with multi-byte characters, so that any fixed-size read boundary
+                    # falls inside a character
+                    body = "".join(f'  LAYER\n    NAME "слой{i}中文中文中文中文中文中文中文中文中文中文中文中文中文中文中文中文"\n    TYPE POINT\n    DATA "данныеданныеданные{i}"\n  END\n' for i in range(700))
+                    ops.append({"op": "loaders", "text": " " * r.randrange(4) + 'MAP\n  NAME "большой"\n' + body + "END\n", "kw": {}, "bom": False})
+                    continue
                 ops.append({"op": "loaders", "text": lead + self.gen_doc(w, strings, nl=r.choice(["\n", "\n", "\r\n"]), comments=r.choice([0, 0.3])),
                             "kw": {"include_comments": r.random() < 0.3, "include_position": r.random() < 0.3}, "bom": False})
             elif name == "failed_load":
@@ -183,6 +189,7 @@ class C20(core.Check):
                         f["n"] = r.choice(NCOUNTS[2:])
                     files.append(f)
                 ops.append({"op": "validate", "files": files, "version": r.choice([None, None, 7.6, 8.0, 6.0]), "glob": r.random() < 0.25,
+                            "odd_names": r.random() < 0.3,
                             "expand": r.choice([None, None, False])})
             else:
                 ops.append({"op": "schema", "version": r.choice([None, 7.6, 8.0])})
@@ -466,8 +473,10 @@ class C20(core.Check):
         unparsed = 0
         matched = 0
         kinds = []
+        odd = ["tiles_{z}", "x_{line}", "odd{", "set{}", "mapa ñ", "o'brien", "a&b", "percent%s"]
         for i, f in enumerate(op["files"]):
-            p = os.path.join(d, f"f{i}.map")
+            stem = f"f{i}" if not op.get("odd_names") else f"{odd[(i + len(op['files'])) % len(odd)]}_{i}"
+            p = os.path.join(d, f"{stem}.map")
             kind = f["kind"]
             kinds.append(kind)
             if kind == "valid":
@@ -481,7 +490,7 @@ class C20(core.Check):
             elif kind == "unparseable":
                 data = b'MAP\n  NAME "x"\n  LAYER\n END END END\n'
             elif kind == "selfinclude":
-                data = f'MAP\n  NAME "x"\n  INCLUDE "f{i}.map"\nEND\n'.encode()  # includes itself: expansion fails
+                data = f'MAP\n  NAME "x"\n  INCLUDE "{stem}.map"\nEND\n'.encode()  # includes itself: expansion fails
             elif kind == "bareinclude":
                 data = b'MAP\n  NAME "x"\n  INCLUDE\nEND\n'
             elif kind == "missinginclude":
